@@ -1,0 +1,152 @@
+//go:build verif
+
+package vaxis
+
+// Contracts for contract-based deductive verification (read by /verif/govc).
+// This file is comment-only; with the build tag off it is not compiled at all.
+
+/*@
+-- ------------------------------------------------------------------ screen (C11, C01)
+
+pred ScreenWF(s *screen) =
+     s != nil && 0 <= s.rows && 0 <= s.cols && len(s.buf) == s.rows
+  && (forall r in 0..s.rows: len(s.buf[r]) == s.cols)
+  && (forall r1 in 0..s.rows: forall r2 in 0..s.rows: r1 != r2 ==> backing(s.buf[r1]) != backing(s.buf[r2]))
+
+func (s *screen) setCell(col int, row int, text Cell)
+  requires wf: ScreenWF(s)
+  ensures C11_wf:    ScreenWF(s)
+  ensures C11_hit:   (0 <= col && col < s.cols && 0 <= row && row < s.rows) ==> s.buf[row][col] == text
+  ensures C11_frame: forall r in 0..s.rows: forall c in 0..s.cols:
+                       (r != row || c != col) ==> s.buf[r][c] == old(s.buf[r][c])
+  ensures C11_dims:  s.rows == old(s.rows) && s.cols == old(s.cols)
+  modifies allelems(s.buf[0])
+
+func (s *screen) setStyle(col int, row int, style Style)
+  requires wf: ScreenWF(s)
+  ensures C11_wf:    ScreenWF(s)
+  ensures C11_hit:   (0 <= col && col < s.cols && 0 <= row && row < s.rows)
+                       ==> s.buf[row][col].Style == style && s.buf[row][col].Character == old(s.buf[row][col].Character)
+  ensures C11_frame: forall r in 0..s.rows: forall c in 0..s.cols:
+                       (r != row || c != col) ==> s.buf[r][c] == old(s.buf[r][c])
+  modifies allelems(s.buf[0])
+
+-- ------------------------------------------------------------------ windows (C11)
+-- Geometry of a window is defined by recursion over the Parent chain (unbounded depth).
+-- absX/absY: absolute origin; inClip(p,x,y): the point at offset (x,y) from p's origin lies in p and in
+-- every ancestor; rootScr: the screen the chain ends in; chainOK: that screen exists and is well-formed.
+-- Assumption recorded in DESIGN: Parent chains are finite (acyclic).
+
+rec absX(p *Window) int = p.Column + (p.Parent == nil ? 0 : absX(p.Parent))
+rec absY(p *Window) int = p.Row + (p.Parent == nil ? 0 : absY(p.Parent))
+rec inClip(p *Window, x int, y int) bool =
+      0 <= x && x < p.Width && 0 <= y && y < p.Height
+   && (p.Parent == nil || inClip(p.Parent, x + p.Column, y + p.Row))
+rec rootScr(p *Window) *screen = p.Parent == nil ? p.Vx.screenNext : rootScr(p.Parent)
+rec chainOK(p *Window) bool = p.Parent == nil ? (p.Vx != nil && ScreenWF(p.Vx.screenNext)) : chainOK(p.Parent)
+
+pred WinOK(w Window)   = w.Parent == nil ? (w.Vx != nil && ScreenWF(w.Vx.screenNext)) : chainOK(w.Parent)
+pred WinScr(w Window)  = w.Parent == nil ? w.Vx.screenNext : rootScr(w.Parent)
+pred WinX(w Window, col int) = col + w.Column + (w.Parent == nil ? 0 : absX(w.Parent))
+pred WinY(w Window, row int) = row + w.Row + (w.Parent == nil ? 0 : absY(w.Parent))
+pred WinHit(w Window, col int, row int) =
+      0 <= col && col < w.Width && 0 <= row && row < w.Height
+   && (w.Parent == nil || inClip(w.Parent, col + w.Column, row + w.Row))
+
+func (win Window) SetCell(col int, row int, cell Cell)
+  requires ok: WinOK(win)
+  ensures C11_place: (WinHit(win, col, row)
+                        && 0 <= WinX(win, col) && WinX(win, col) < WinScr(win).cols
+                        && 0 <= WinY(win, row) && WinY(win, row) < WinScr(win).rows)
+                     ==> WinScr(win).buf[WinY(win, row)][WinX(win, col)] == cell
+  ensures C11_contain: forall r in 0..WinScr(win).rows: forall c in 0..WinScr(win).cols:
+                     (!WinHit(win, col, row) || r != WinY(win, row) || c != WinX(win, col))
+                     ==> WinScr(win).buf[r][c] == old(WinScr(win).buf[r][c])
+  modifies allelems(WinScr(win).buf[0])
+
+func (win Window) SetStyle(col int, row int, style Style)
+  requires ok: WinOK(win)
+  ensures C11_place: (WinHit(win, col, row)
+                        && 0 <= WinX(win, col) && WinX(win, col) < WinScr(win).cols
+                        && 0 <= WinY(win, row) && WinY(win, row) < WinScr(win).rows)
+                     ==> WinScr(win).buf[WinY(win, row)][WinX(win, col)].Style == style
+  ensures C11_contain: forall r in 0..WinScr(win).rows: forall c in 0..WinScr(win).cols:
+                     (!WinHit(win, col, row) || r != WinY(win, row) || c != WinX(win, col))
+                     ==> WinScr(win).buf[r][c] == old(WinScr(win).buf[r][c])
+  modifies allelems(WinScr(win).buf[0])
+
+-- Covers(w,c,r): the absolute screen position (c,r) lies inside w and all of its ancestors.
+pred Covers(w Window, c int, r int) = WinHit(w, c - WinX(w, 0), r - WinY(w, 0))
+-- Unchanged outside the window: the containment clause shared by every drawing helper.
+pred OutsideKept(w Window) =
+     forall r in 0..WinScr(w).rows: forall c in 0..WinScr(w).cols:
+        !Covers(w, c, r) ==> WinScr(w).buf[r][c] == old(WinScr(w).buf[r][c])
+
+func (win Window) Fill(cell Cell)
+  unfold none
+  requires ok: WinOK(win)
+  requires vx: win.Vx != nil && ref(win.Vx.charCache) != 0
+  ensures C11_contain: OutsideKept(win)
+  loop 1 invariant keep: OutsideKept(win)
+  loop 2 invariant keep: OutsideKept(win)
+
+func (win Window) Print(segs ...Segment) (col int, row int)
+  unfold none
+  requires ok: WinOK(win)
+  requires vx: win.Vx != nil && ref(win.Vx.charCache) != 0
+  ensures C11_contain: OutsideKept(win)
+  loop 1 invariant keep: OutsideKept(win)
+  loop 2 invariant keep: OutsideKept(win)
+
+func (win Window) PrintTruncate(row int, segs ...Segment)
+  unfold none
+  requires ok: WinOK(win)
+  requires vx: win.Vx != nil && ref(win.Vx.charCache) != 0
+  ensures C11_contain: OutsideKept(win)
+  loop 1 invariant keep: OutsideKept(win)
+  loop 2 invariant keep: OutsideKept(win)
+
+func (win Window) Println(row int, segs ...Segment)
+  unfold none
+  requires ok: WinOK(win)
+  requires vx: win.Vx != nil && ref(win.Vx.charCache) != 0
+  ensures C11_contain: OutsideKept(win)
+  loop 1 invariant keep: OutsideKept(win)
+  loop 2 invariant keep: OutsideKept(win)
+
+func (win Window) Wrap(segs ...Segment) (col int, row int)
+  unfold none
+  requires ok: WinOK(win)
+  requires vx: win.Vx != nil && ref(win.Vx.charCache) != 0
+  ensures C11_contain: OutsideKept(win)
+  loop 1 invariant keep: OutsideKept(win)
+  loop 2 invariant keep: OutsideKept(win)
+  loop 3 invariant keep: OutsideKept(win)
+  loop 4 invariant keep: OutsideKept(win)
+
+-- A child window never covers more than its parent: clamping equations of New.
+func (win Window) New(col int, row int, cols int, rows int) Window
+  ensures C11_parent: result.Parent != nil && result.Column == col && result.Row == row && result.Vx == win.Vx
+  ensures C11_copy:   result.Parent.Column == win.Column && result.Parent.Row == win.Row
+                   && result.Parent.Width == win.Width && result.Parent.Height == win.Height
+                   && result.Parent.Parent == win.Parent && result.Parent.Vx == win.Vx
+  ensures C11_width:  result.Width  == ((cols < 0 || cols + col > win.Width)  ? win.Width - col  : cols)
+  ensures C11_height: result.Height == ((rows < 0 || rows + row > win.Height) ? win.Height - row : rows)
+
+-- ------------------------------------------------------------------ mouse (C03)
+
+pred CSIWF(seq ansi.CSI) = forall i in 0..len(seq.Parameters): len(seq.Parameters[i]) >= 1
+
+func parseMouseEvent(seq ansi.CSI) (Mouse, bool)
+  requires wf: CSIWF(seq)
+  ensures C03_ok:     result1 <==> (len(seq.Intermediate) == 1 && seq.Intermediate[0] == '<' && len(seq.Parameters) == 3)
+  ensures C03_button: result1 ==> result0.Button == seq.Parameters[0][0] & 195
+  ensures C03_pos:    result1 ==> result0.Col == seq.Parameters[1][0] - 1 && result0.Row == seq.Parameters[2][0] - 1
+  ensures C03_type:   result1 ==> result0.EventType ==
+                        (seq.Parameters[0][0] & 32 != 0 ? EventMotion
+                          : (seq.Final == 'M' ? EventPress : (seq.Final == 'm' ? EventRelease : 0)))
+  ensures C03_mods:   result1 ==> result0.Modifiers ==
+                          (seq.Parameters[0][0] & 4  != 0 ? ModShift : 0)
+                        + (seq.Parameters[0][0] & 8  != 0 ? ModAlt   : 0)
+                        + (seq.Parameters[0][0] & 16 != 0 ? ModCtrl  : 0)
+@*/
